@@ -51,9 +51,12 @@ BodySize(b) == SumOver(RegionsOf(b), [r \in Regions |-> RegionSize(r)])
 BlocksOfBody(b) == {k \in Blocks : \E r \in RegionsOf(b) : NVox[r][k] > 0}
 TotalVoxels == SumOver(Regions, [r \in Regions |-> RegionSize(r)])
 
+\* initial mapping: every supervoxel is its own body (a configuration may substitute another
+\* initial agglomeration with  InitMap <- ...  ; the harness then builds it with POST merge)
+InitMap == [s \in {InitSV[r] : r \in Regions} \ {0} |-> s]
 Init ==
     /\ sv = InitSV
-    /\ mp = [s \in {InitSV[r] : r \in Regions} \ {0} |-> s]
+    /\ mp = InitMap
     /\ nxt = InitMax
     /\ depth = 0
     /\ last = [op |-> "init"]
@@ -123,6 +126,38 @@ Reingest(kind, b) ==
     /\ last' = [op |-> kind, body |-> b]
 
 (***************************************************************************)
+(* State-changing ingest of an agglomeration (gap C08-2).  A client that    *)
+(* has computed "the bodies M join T" offline pushes the result through the *)
+(* ingestion endpoints instead of POST merge:                               *)
+(*    POST mappings   every supervoxel of a body in M  ->  T                *)
+(*    POST index/T    T's index = the block-wise union of the indices       *)
+(*    POST index/m    an empty index for every m in M (= delete)            *)
+(* (how = "indices": the index part is one POST indices batch).  The claim  *)
+(* is that the three ingests together are observably Merge(T, M): the       *)
+(* successor below is Merge's, so every invariant and every read of Obs is  *)
+(* demanded of the ingestion path too.  The record carries the posted       *)
+(* mapping (svs); the posted indices are those of Obs in the target state.  *)
+(***************************************************************************)
+IngestAgglo(T, M, how) ==
+    /\ T \in Bodies /\ M # {} /\ M \subseteq Bodies \ {T}
+    /\ mp' = [s \in DOMAIN mp |-> IF mp[s] \in M THEN T ELSE mp[s]]
+    /\ UNCHANGED <<sv, nxt>>
+    /\ last' = [op |-> "agglo", target |-> T, merged |-> M, svs |-> {s \in SVs : mp[s] \in M}, how |-> how]
+
+(***************************************************************************)
+(* POST split-supervoxel/<s>?split=<a>&remain=<b>: the client names the two *)
+(* new supervoxels itself (gap C08-12).  Same successor as SplitSV; the     *)
+(* harness chooses two labels above everything present or allocated.        *)
+(***************************************************************************)
+SplitSVChosen(s, S) ==
+    /\ s \in SVs /\ S # {} /\ S \subseteq RegionsOfSV(s) /\ S # RegionsOfSV(s)
+    /\ sv' = [r \in Regions |-> IF r \in S THEN nxt + 1 ELSE IF sv[r] = s THEN nxt + 2 ELSE sv[r]]
+    /\ mp' = [x \in ((DOMAIN mp) \ {s}) \cup {nxt + 1, nxt + 2} |->
+                 IF x \in {nxt + 1, nxt + 2} THEN mp[s] ELSE mp[x]]
+    /\ nxt' = nxt + 2
+    /\ last' = [op |-> "splitsv", sv |-> s, regions |-> S, split |-> nxt + 1, remain |-> nxt + 2, chosen |-> TRUE]
+
+(***************************************************************************)
 (* POST renumber [new, old]: the body `old` becomes body `new`             *)
 (***************************************************************************)
 Renumber(old, new) ==
@@ -171,6 +206,8 @@ Next ==
        \/ \E old \in Bodies : Renumber(old, nxt + 5)
        \/ WithSplit /\ \E B \in Bodies : \E S \in NonEmptyProperSubsets(RegionsOf(B)) : Split(B, S)
        \/ WithSplit /\ \E b \in Bodies : \E k \in {"reindex", "remap"} : Reingest(k, b)
+       \/ WithSplit /\ \E T \in Bodies : \E M \in (SUBSET (Bodies \ {T})) \ {{}} : \E h \in {"index", "indices"} : IngestAgglo(T, M, h)
+       \/ WithSplit /\ \E s \in SVs : \E S \in NonEmptyProperSubsets(RegionsOfSV(s)) : SplitSVChosen(s, S)
        \* a region is overwritten with a fresh label, with a supervoxel already present, or erased
        \/ WithOverwrite /\ \E r \in Regions : \E x \in {0, nxt + 7} \cup SVs : Overwrite({r}, x)
 
